@@ -30,7 +30,7 @@ CONFIRM_ALONE = ('terminate_slow', 'terminate_hung', 'worker_still_alive_after_s
 FLOORS = {
     'quick': {'real:terminate_scenarios': 14, 'real:signal_scenarios': 14, 'real:busy_at_call': 10,
               'real:exit_callbacks_seen': 8, 'real:gc_scenarios': 1},
-    'thorough': {'real:terminate_scenarios': 60, 'real:signal_scenarios': 90},
+    'thorough': {'real:terminate_scenarios': 20, 'real:signal_scenarios': 35},
 }
 STATES = ['idle', 'python', 'c_sleep', 'except_handler']
 TERMSIGS = ['SIGHUP', 'SIGQUIT', 'SIGALRM', 'SIGUSR2', 'SIGXCPU', 'SIGVTALRM', 'SIGTERM']
